@@ -517,9 +517,11 @@ inline void cmpModel(const Model& a, const Model& b, Cmp& c)
         }
     }
     // C(0): a sum of sills for the bounded structures; for the field-dependent ones sill x f(field) with
-    // field = scadef x largest range = coefficient x range, i.e. four rounded factors (calibrated max 0.99 at x4 -> x40)
+    // field = scadef x largest range = coefficient x range (four rounded factors), and for POWER field^alpha with a
+    // model-level field that may be as large as 1.234e30: d(field^a)/field^a = ln(field) da = 69 da -> same budget as
+    // the probe pairs (x1000, i.e. 1e-11 relative; calibrated max 0.03)
     for (int i = 0; i < nvar; i++)
-      for (int j = 0; j < nvar; j++) c.numScaled("eval" + fieldDep, a.eval0(i, j), b.eval0(i, j), totalSill, 40., fmt("h=0 var (%d,%d)", i, j));
+      for (int j = 0; j < nvar; j++) c.numScaled("eval" + fieldDep, a.eval0(i, j), b.eval0(i, j), totalSill, 1000., fmt("h=0 var (%d,%d)", i, j));
   }
   if (a.getDriftNumber() == b.getDriftNumber() && a.getDriftNumber() > 0)
   {
